@@ -2,7 +2,9 @@ package main
 
 import (
 	"encoding/json"
+	"runtime"
 	"strconv"
+	"strings"
 	"sync/atomic"
 	"time"
 
@@ -23,6 +25,8 @@ type timeoutIn struct {
 	EnvProbe bool         `json:"envProbe"` // the wrapped action re-sets a variable of the caller's Context when it finishes (also when abandoned)
 	Lazy    string        `json:"lazy"`    // a modifier applied to the wrapped action last before Timeout: the slow work sits behind it
 	InBatch bool          `json:"inBatch"` // the wrapped Timeout is one of two Batch members
+	Members int           `json:"members"` // > 0: a Batch of that many members, each a blocking computation under its own Timeout(d): the bound holds for the Batch
+	CtxProbe bool         `json:"ctxProbe"` // the caller's Context has Args, Parts, Value, Dir of its own: a timely wrapped action sees exactly them
 }
 
 // runTimeout: a step answered more than d/2 after its answer was due means the process was
@@ -53,6 +57,7 @@ func runTimeoutOnce(in timeoutIn) (map[string]interface{}, bool) {
 		}
 	}()
 	var cur atomic.Int64
+	var sawCtx atomic.Value
 	wrapped := carapace.ActionCallback(func(c carapace.Context) carapace.Action {
 		i := int(cur.Load())
 		dur := in.Steps[i].Dur
@@ -63,6 +68,9 @@ func runTimeoutOnce(in timeoutIn) (map[string]interface{}, bool) {
 		}
 		if in.EnvProbe {
 			c.Setenv("LANG", "abandoned"+strconv.Itoa(i)) // a variable the caller's Context already defines
+		}
+		if in.CtxProbe {
+			sawCtx.Store("args=" + strings.Join(c.Args, ",") + "|parts=" + strings.Join(c.Parts, ",") + "|value=" + c.Value + "|dir=" + c.Dir)
 		}
 		// an abandoned computation still produces (and writes) its result
 		return carapace.ActionValues("res" + strconv.Itoa(i)).Usage("usage" + strconv.Itoa(i)).NoSpace('x')
@@ -91,11 +99,21 @@ func runTimeoutOnce(in timeoutIn) (map[string]interface{}, bool) {
 	if in.InBatch {
 		a = carapace.Batch(a, carapace.ActionValues("member")).ToA()
 	}
+	if in.Members > 0 {
+		batch := carapace.Batch()
+		for k := 0; k < in.Members; k++ {
+			batch = append(batch, wrapped.Timeout(d, alt))
+		}
+		a = batch.ToA()
+	}
 	outs := []map[string]interface{}{}
 	stalled := false
 	callerCtx := carapace.Context{}
 	if in.EnvProbe {
 		callerCtx.Env = []string{"OTHER=1", "LANG=caller"}
+	}
+	if in.CtxProbe {
+		callerCtx.Args, callerCtx.Parts, callerCtx.Value, callerCtx.Dir = []string{"pos1", "pos2"}, []string{"a", "b"}, "val", "/tmp"
 	}
 	for i, s := range in.Steps {
 		cur.Store(int64(i))
@@ -119,6 +137,10 @@ func runTimeoutOnce(in timeoutIn) (map[string]interface{}, bool) {
 			vals = append(vals, v.Value)
 		}
 		o := map[string]interface{}{"values": vals, "usage": res.Usage, "nospace": res.Nospace, "elapsedMs": elapsed.Milliseconds(), "panic": res.Panic}
+		if in.CtxProbe {
+			saw, _ := sawCtx.Load().(string)
+			o["sawCtx"] = saw
+		}
 		if in.EnvProbe {
 			saw, _ := altSaw.Load().(string)
 			altSaw.Store("")
@@ -145,6 +167,16 @@ func genTimeout(r *rng, tier string) interface{} {
 		// the abandoned computation writes to a variable the caller's Context defines: neither the alternative nor the caller may see it
 		in.EnvProbe, in.Nested, in.InBatch, in.Lazy = true, false, false, ""
 		in.Steps = []timeoutStep{{Dur: in.D * 3, Gap: in.D * 3}, {Dur: in.D * 3, Gap: in.D * 3}, {Dur: 0, Gap: 0}}
+		return in
+	}
+	if r.intn(40) == 0 {
+		// more Timeout-bounded members than the machine has cores, all of them blocking: the Batch answers within the bound too
+		return timeoutIn{D: 400, Members: 4 * runtime.NumCPU(), Steps: []timeoutStep{{Dur: -1, Gap: 0}}}
+	}
+	if r.chance(10) {
+		// a timely computation sees the caller's Context as it is
+		in.CtxProbe, in.EnvProbe = true, false
+		in.Steps = []timeoutStep{{Dur: 0, Gap: 0}, {Dur: in.D / 4, Gap: 0}}
 		return in
 	}
 	if r.intn(120) == 0 {
